@@ -1,5 +1,6 @@
 import BM.Shipped
 import BM.Proofs.Escape
+import BM.Proofs.Step
 /-
   C04 (Strict half): for every input, StrictPolicy returns text with no markup at all.
   Proved for the model at byte level, which is stronger than the tokenizer-level reading:
@@ -26,34 +27,15 @@ theorem bare_space {p : Policy} (h : Bare p) : p.space = [] := by
 theorem bare_step_writes {p : Policy} (h : Bare p) (st : LoopState) (t : Token)
     (st' : LoopState) (ws : List Write) (hs : p.step st t = some (st', ws)) :
     ∀ w ∈ ws, ∃ d, w.data = escape d := by
-  unfold Policy.step at hs
-  split at hs
-  · -- doctype
-    simp at hs; obtain ⟨_, rfl⟩ := hs; simp
-  · -- comment
-    simp [h.comments] at hs; obtain ⟨_, rfl⟩ := hs; simp
-  · -- start
-    simp only [bare_attrRulesFor h, bare_space h] at hs
-    split at hs <;> simp at hs <;> obtain ⟨_, rfl⟩ := hs <;> simp
-  · -- end
-    simp only [bare_space h, h.els, h.elsm, Map.contains, Map.get?] at hs
-    repeat' split at hs
-    all_goals first
-      | (simp at hs; done)
-      | (simp at hs; obtain ⟨_, rfl⟩ := hs; simp; done)
-      | (exfalso; simp_all; done)
-  · -- self-closing
-    simp only [bare_attrRulesFor h, bare_space h] at hs
-    split at hs <;> simp at hs <;> obtain ⟨_, rfl⟩ := hs <;> simp
-  · -- text
-    rename_i htt
-    simp only [h.noUnsafe] at hs
-    repeat' split at hs
-    all_goals (simp at hs; obtain ⟨_, rfl⟩ := hs)
-    all_goals first
-      | (intro w hw; simp at hw; done)
-      | (exfalso; simp_all; done)
-      | (intro w hw; simp at hw; subst hw; exact ⟨t.data, by simp [Token.render, htt]⟩)
+  have he := step_emit p st t st' ws hs
+  cases he with
+  | nothing => simp
+  | space hsp => simp [h.spaces] at hsp
+  | comment _ hc => simp [h.comments] at hc
+  | openTag aps _ _ haps _ _ _ _ => simp [bare_attrRulesFor h] at haps
+  | closeTag _ _ hall => simp [h.els, h.elsm, Map.contains, Map.get?] at hall
+  | text htt _ _ => intro w hw; simp at hw; subst hw; exact ⟨t.data, by simp [Token.render, htt]⟩
+  | rawText _ hu _ => simp [h.noUnsafe] at hu
 
 theorem bare_run_writes {p : Policy} (h : Bare p) (ts : List Token) :
     ∀ (st : LoopState), ∀ w ∈ (p.run st ts).1, ∃ d, w.data = escape d := by
